@@ -485,7 +485,13 @@ func (c BaseCfg) Lean() string {
 // U64TabSubst is the one assumed equivalence handed to the translator (validated by the correspondence; see Trusted).
 var U64TabSubst = go2lean.SubstRule{Lean: "1#64 <<< i.toNat", Why: "init() fills u64Tab[i] = 1 << i for i in [0,64) (fact tabInit); only used under the guard i <= 63"}
 
-func ExtractC08(repo, leanDir string) {
+// ExtractC08Quiet regenerates Nv/Gen/C08.lean without printing the summary line (used by `c09 extract`, whose Tie
+// module imports it).
+func ExtractC08Quiet(repo, leanDir string) { extractC08(repo, leanDir, false) }
+
+func ExtractC08(repo, leanDir string) { extractC08(repo, leanDir, true) }
+
+func extractC08(repo, leanDir string, verbose bool) {
 	f64 := gofacts.MustLoad(repo, "bitmap1024/internal/bit64.go")
 	f1k := gofacts.MustLoad(repo, "bitmap1024/bit1024.go")
 	base := Base(repo)
@@ -602,7 +608,9 @@ func ExtractC08(repo, leanDir string) {
 		fmt.Fprintln(os.Stderr, err)
 		os.Exit(2)
 	}
-	fmt.Printf("extract C08: cfg=%s deviations=%v untranslatable=%v\n", base.Lean(), devs, kerrs)
+	if verbose {
+		fmt.Printf("extract C08: cfg=%s deviations=%v untranslatable=%v\n", base.Lean(), devs, kerrs)
+	}
 }
 
 // ---------------------------------------------------------------- C09
